@@ -475,7 +475,8 @@ Qed.
 
 Theorem index_scan_eq_pk_scan_lemma pfx1 pfx2 cs desc1 desc2 t p :
   table_ok t = true -> pred_ok p = true ->
-  Permutation (index_scan pfx1 cs desc1 t p) (index_scan pfx2 [CId] desc2 t p) /  Permutation (index_scan pfx1 cs desc1 t p) (filter (eval p) t).
+  Permutation (index_scan pfx1 cs desc1 t p) (index_scan pfx2 [CId] desc2 t p) /\
+  Permutation (index_scan pfx1 cs desc1 t p) (filter (eval p) t).
 Proof.
   intros Ht Hp. split.
   - eapply perm_trans; [apply index_scan_perm; auto | apply Permutation_sym, index_scan_perm; auto].
@@ -485,7 +486,8 @@ Qed.
 Example index_scan_example :
   let t := [mkRow 1 (Some 5%Z) None None; mkRow 2 None (Some 1%Z) None; mkRow 3 (Some (-4)%Z) None None] in
   let p := PCmp CA OLt (Some 5%Z) in
-  table_ok t = true /\ pred_ok p = true /  map r_id (index_scan [1] [CA] false t p) = [2; 3]%Z /\ map r_id (index_scan [2] [CId] false t p) = [2; 3]%Z.
+  table_ok t = true /\ pred_ok p = true /\
+  map r_id (index_scan [1] [CA] false t p) = [2; 3]%Z /\ map r_id (index_scan [2] [CId] false t p) = [2; 3]%Z.
 Proof. vm_compute. auto. Qed.
 
 (* ------------------------------------------------------------------ index order = SQL order *)
